@@ -60,6 +60,7 @@ struct Inner {
 #[derive(Default)]
 pub struct Rec {
     inner: Mutex<Inner>,
+    stall: Mutex<Option<(&'static str, u64)>>,
 }
 
 impl Rec {
@@ -80,6 +81,9 @@ impl Rec {
     pub fn count(&self, label: &str) -> usize {
         let g = self.inner.lock().unwrap();
         g.events.iter().filter(|e| e.label == label).count()
+    }
+    pub fn set_stall(&self, s: Option<(&'static str, u64)>) {
+        *self.stall.lock().unwrap() = s;
     }
     pub fn set_crash(&self, f: Option<CrashFn>) {
         self.inner.lock().unwrap().crash = f;
@@ -111,6 +115,13 @@ impl Rec {
 
 impl Hooks for Rec {
     fn event(&self, actor: &str, label: &'static str, args: Args<'_>) {
+        // free-running multi-threaded runs: hold the calling thread for a moment at the labels asked for
+        // (widens a window between two steps of the code under test, it does not create one)
+        if let Some((l, us)) = *self.stall.lock().unwrap() {
+            if l == label {
+                std::thread::sleep(std::time::Duration::from_micros(us));
+            }
+        }
         let mut g = self.inner.lock().unwrap();
         if !g.record {
             return;
